@@ -44,7 +44,7 @@ def gen_case(rng, pat, max_tags):
 
 
 def _run_fake(case, tags_all, tags_branch, d):
-    proj = project.Project(os.path.join(d, "p"))
+    proj = project.Project(os.path.join(d, "p"), gitfile=(len(case["all"]) % 3 == 1))       # some projects are linked worktree / submodule checkouts (.git is a file)
     fv = fakevcs.FakeVCS(os.path.join(d, "fake"))
     fv.set(tags=tags_all, tags_branch=tags_branch, status="", remote="", branches="")
     proj.write("bumpver.toml", project.bumpver_toml(case["cfgver"], case["pat"], [("f.txt", ["{version}"])], extra={"tag_scope": case["scope"]}))
